@@ -270,3 +270,61 @@ func (w *World) registerHTTPEffects() {
 		return nilIface
 	}
 }
+
+// ---- files / csv / bcrypt stubs (C20, C01 basic auth) ----
+
+func (w *World) registerFileIntrinsics() {
+	I := w.intrinsics
+	// verifCSVFile(path, records, broken): the file at path holds these records (or is unparsable)
+	I["@verifCSVFile"] = func(e *Exec, fn *ssa.Function, a []Value) Value {
+		path := e.constStr(a[0], "file path")
+		e.hidden["csv:"+path] = a[1]
+		e.hidden["csvbroken:"+path] = a[2]
+		return nil
+	}
+	I["os.Open"] = func(e *Exec, fn *ssa.Function, a []Value) Value {
+		path := e.constStr(a[0], "os.Open path")
+		if _, ok := e.hidden["csv:"+path]; !ok {
+			return tuple(&Pointer{}, e.newError("open "+path+": no such file or directory"))
+		}
+		obj := e.newObject(nil, &OpaqueVal{name: "os.File", data: path}, "file")
+		return tuple(&Pointer{obj: obj}, nilIface)
+	}
+	I["(*os.File).Close"] = func(e *Exec, fn *ssa.Function, a []Value) Value { return nilIface }
+	I["encoding/csv.NewReader"] = func(e *Exec, fn *ssa.Function, a []Value) Value {
+		t := e.errorsPkgType("encoding/csv", "Reader")
+		obj := e.newObject(t, e.zero(t), "csv.Reader")
+		iv := a[0].(*IfaceVal)
+		if fp, ok := iv.val.(*Pointer); ok && !isNilPtr(fp) {
+			if ov, ok := fp.obj.val.(*OpaqueVal); ok && ov.name == "os.File" {
+				e.hidden[fmt.Sprintf("csvreader:%d", obj.id)] = ov.data.(string)
+			}
+		}
+		return &Pointer{obj: obj}
+	}
+	I["(*encoding/csv.Reader).ReadAll"] = func(e *Exec, fn *ssa.Function, a []Value) Value {
+		p := a[0].(*Pointer)
+		path, ok := e.hidden[fmt.Sprintf("csvreader:%d", p.obj.id)].(string)
+		if !ok {
+			e.unsupported("csv reader over an unmodelled source")
+		}
+		broken := e.hidden["csvbroken:"+path].(*Term)
+		if e.branch(broken) {
+			return tuple(&SliceVal{isNil: true}, e.newError("csv: parse error"))
+		}
+		return tuple(e.hidden["csv:"+path].(Value), nilIface)
+	}
+	bc := "golang.org/x/crypto/bcrypt"
+	I[bc+".CompareHashAndPassword"] = func(e *Exec, fn *ssa.Function, a []Value) Value {
+		h, p := e.bytesTerm(a[0]), e.bytesTerm(a[1])
+		kind := mkUF("bcrypt_outcome", SInt, h, p)
+		switch e.fork([]*Term{mkEq(kind, mkInt(0)), mkEq(kind, mkInt(1)), mkNot(mkOr(mkEq(kind, mkInt(0)), mkEq(kind, mkInt(1))))}) {
+		case 0:
+			return nilIface
+		case 1:
+			g := e.w.ssaPkgs[bc].Var("ErrMismatchedHashAndPassword")
+			return e.load(&Pointer{obj: e.globalObj(g)})
+		}
+		return e.newError("crypto/bcrypt: malformed hash")
+	}
+}
